@@ -26,6 +26,7 @@ EXTENDS BebopWire
 NL == "\n"
 SB == "~"     \* soft break: nothing/space, a line break, or a blank line
 SL == "^"     \* soft line: nothing/space or a single line break (after attributes and block comments)
+SA == "%"     \* soft attribute break: nothing/space, a line break, or an EMPTY line between an attribute and what it annotates
 
 NoDoc == <<>>
 LineDoc(s) == << [style |-> "line", text |-> s] >>
@@ -49,17 +50,19 @@ TypeTokens(t, asp) ==
     [] t.k = "m" -> << "map", "[", t.key, "," >> \o TypeTokens(t.v, asp) \o << "]" >>
 
 Quote(s) == "\"" \o s \o "\""
-DepTokens(dep) == IF dep = "" THEN <<>>
-                  ELSE << "[", "deprecated", "(", Quote(dep), ")", "]", SL >>
+\* after an attribute the layout may leave the line, or (when no documentation is pending, which an empty
+\* line would detach) an empty line: SA
+DepTokens(dep, bare) == IF dep = "" THEN <<>>
+                        ELSE << "[", "deprecated", "(", Quote(dep), ")", "]", IF bare THEN SA ELSE SL >>
 TagTokens(tags) == FlattenSeq([i \in 1..Len(tags) |-> << NL, "//[tag(" \o tags[i].text \o ")]", NL >>])
 TrailTokens(f) == IF f.trail = "" THEN <<>> ELSE << "//" \o f.trail, NL >>
 
 FieldTokens(f, isMsg, asp) ==
-  << SB >> \o DocTokens(f.doc) \o TagTokens(f.tags) \o DepTokens(f.dep)
-  \o (IF isMsg THEN << ToString(f.idx), "->" >> ELSE <<>>)
+  << SB >> \o DocTokens(f.doc) \o TagTokens(f.tags) \o DepTokens(f.dep, f.doc = NoDoc /\ f.tags = <<>>)
+  \o (IF isMsg THEN << IF "idxlit" \in DOMAIN f THEN f.idxlit ELSE ToString(f.idx), "->" >> ELSE <<>>)
   \o TypeTokens(f.t, asp) \o << f.name, ";" >> \o TrailTokens(f)
 
-OpTokens(op) == IF op = "" THEN <<>> ELSE << "[", "opcode", "(", op, ")", "]", SL >>
+OpTokens(op, bare) == IF op = "" THEN <<>> ELSE << "[", "opcode", "(", op, ")", "]", IF bare THEN SA ELSE SL >>
 
 RECURSIVE DefTokens(_)
 DefTokens(d) ==
@@ -72,13 +75,13 @@ DefTokens(d) ==
     [] d.k = "union" ->
          << "union", d.name, "{" >>
          \o FlattenSeq([i \in 1..Len(d.branches) |->
-               << SB >> \o DocTokens(d.branches[i].doc) \o DepTokens(d.branches[i].dep)
+               << SB >> \o DocTokens(d.branches[i].doc) \o DepTokens(d.branches[i].dep, d.branches[i].doc = NoDoc)
                \o << ToString(d.branches[i].idx), "->" >> \o DefTokens(d.branches[i].def) \o << NL >>])
          \o << SB, "}" >>
     [] d.k = "enum" ->
          << "enum", d.name >> \o (IF d.base = "" THEN <<>> ELSE << ":", d.base >>) \o << "{" >>
          \o FlattenSeq([i \in 1..Len(d.members) |->
-               << SB >> \o DocTokens(d.members[i].doc) \o DepTokens(d.members[i].dep)
+               << SB >> \o DocTokens(d.members[i].doc) \o DepTokens(d.members[i].dep, d.members[i].doc = NoDoc)
                \o << d.members[i].name, "=" >> \o d.members[i].lit \o << ";" >>])
          \o << SB, "}" >>
     [] d.k = "const" -> << "const", d.t, d.name, "=", d.lit, ";" >>
@@ -86,8 +89,8 @@ DefTokens(d) ==
 
 ItemTokens(d) ==
   << SB >> \o (IF d.k = "import" THEN <<>> ELSE DocTokens(d.doc))
-  \o (IF d.k \in {"struct", "message", "union"} THEN OpTokens(d.op) ELSE <<>>)
-  \o (IF d.k = "enum" /\ d.flags THEN << "[", "flags", "]", SL >> ELSE <<>>)
+  \o (IF d.k \in {"struct", "message", "union"} THEN OpTokens(d.op, d.doc = NoDoc) ELSE <<>>)
+  \o (IF d.k = "enum" /\ d.flags THEN << "[", "flags", "]", IF d.doc = NoDoc THEN SA ELSE SL >> ELSE <<>>)
   \o DefTokens(d) \o << NL >>
 
 Tokens(items) == FlattenSeq([i \in 1..Len(items) |-> ItemTokens(items[i])])
